@@ -108,7 +108,7 @@ Qed.
 Lemma do_link_t g f cwd fp pn tg : do_link g (wt f) cwd fp pn tg = owt (do_link g f cwd fp pn tg).
 Proof.
   unfold do_link. rewrite !awalk_t, kwalk_t.
-  destruct (match tg with [] => WErrNoEnt | _ => if fixH g then awalk f pn false else kwalk f cwd (is_abs tg) (comps_of tg) false end);
+  destruct (if fixH g then awalk f pn false else kwalk f cwd (is_abs tg) (comps_of tg) false);
     try reflexivity; destruct (awalk f fp false); reflexivity.
 Qed.
 
